@@ -104,13 +104,10 @@ Lemma match_positive_shape en c a o :
 Proof.
   destruct en; simpl.
   - intros M ->. destruct o; simpl in *; try discriminate.
-    apply andb_true_iff in M as [E1 E2]. rewrite Z.eqb_sym, E1, Nat.eqb_sym, E2. reflexivity.
+    apply andb_true_iff in M as [E1 E2]. rewrite Z.eqb_sym, E1. destruct hits; [reflexivity | discriminate].
   - destruct a, o; simpl; try discriminate; intros M H; subst.
     + apply andb_true_iff in M as [_ E]. rewrite Nat.eqb_sym. exact E.
     + rewrite Nat.eqb_sym. exact M.
-    + discriminate.
-    + discriminate.
-    + discriminate.
   - intros M ->. destruct o; simpl in *; try discriminate. exact M.
 Qed.
 
